@@ -13,7 +13,8 @@ func ErrKind(err error) string {
 	switch {
 	case err == nil:
 		return "nil"
-	case err == io.EOF:
+	case errors.Is(err, io.EOF):
+		// (a backend may test errors.Is(err, io.EOF): an error wrapping io.EOF is "the end" as well)
 		return "eof"
 	case err == io.ErrUnexpectedEOF:
 		return "ueof"
